@@ -81,6 +81,8 @@ func init() {
 			fixed: fixed,
 			opts:  batchOpts{needU: true},
 			noTraceOwner: true,
+			// only failures the optimiser is responsible for (onCompileFail below) are C07's
+			casualtiesOK: true,
 			perRecord: func(rs *runState, p *Program, r *Record) *violationT {
 				if r.UO != "" {
 					return &violationT{Kind: "uo-trace", Signature: "uo:" + uoSignature(r.UO), What: fmt.Sprintf("%s %s input %v script %s: unoptimised and optimised code behave differently: %s", r.Prog, r.Entry, r.Input, r.Script, r.UO), NeedU: true}
@@ -88,6 +90,17 @@ func init() {
 				return nil
 			},
 			onCompileFail: func(rs *runState, p *Program, f *stageFailure, b *batch) bool {
+				if f.Stage == "compile" {
+					// the full pipeline failed: if the rewrite stage alone succeeds, the optimise stage is the culprit
+					r := runCmd(b.dir, 5*time.Minute, nil, rs.tools.cocompileu, "s", "u")
+					if r.code == 0 {
+						rs.eval(progHash(p)+"compile", true, p.Tags...)
+						rs.addViolation(&violationT{Kind: "compile", Signature: "opt-compile:" + normDiag(f.Diag), What: fmt.Sprintf("%s: the rewrite stage succeeds but the full pipeline (optimise stage) fails: %s", p.Name, normDiag(f.Diag)),
+							Program: p, Stage: f, SourceS: b.srcS, Style: b.opts.style, NeedU: true})
+						return true
+					}
+					return false
+				}
 				if f.Stage != "build-o" {
 					return false
 				}
